@@ -21,7 +21,7 @@ MOD = "mc.props.C15"
 
 ACTIONS = [
     "full", "mesh_only", "part_only", "sink_only", "value_pred", "box", "level_le_2", "cpu_list_2",
-    "sortby_part", "sortby_sink", "sortby_mesh", "refused_sortby_with_level_cap", "refused_cpu_list_with_box", "mesh_vars", "part_vars", "amr_vars_only",
+    "sortby_part", "sortby_sink", "sortby_mesh", "part_only_sortby_names_mesh_too", "sink_only_sortby_names_every_group", "refused_sortby_with_level_cap", "refused_cpu_list_with_box", "mesh_vars", "part_vars", "amr_vars_only",
     "hydro_var_only", "slab_y", "slab_x", "box_far_corner", "groups_off_mesh", "refused_predicate_raises", "grav_var_only", "slab_z",
 ]
 
@@ -90,6 +90,11 @@ def action_kwargs(name, out):
         return {"sortby": {"sink": "level"}}
     if name == "sortby_mesh":
         return {"sortby": {"mesh": "density"}}
+    # a sorting request that also names groups this call does not load: it concerns what the call loads
+    if name == "part_only_sortby_names_mesh_too":
+        return {"select": ["part"], "sortby": {"mesh": "density", "part": "identity"}}
+    if name == "sink_only_sortby_names_every_group":
+        return {"select": ["sink"], "sortby": {"mesh": "level", "part": "mass", "sink": "level"}}
     # calls that are rightly refused (after some of the call's settings have been taken into account)
     if name == "refused_sortby_with_level_cap":
         return {"select": {"mesh": {"level": lambda l: l <= 2}}, "sortby": {"mesh": "no_such_variable"}}
@@ -286,7 +291,7 @@ def fresh_action_acc(payload):
 
 
 def run(ctx):
-    acts = ACTIONS if ctx.thorough else ACTIONS[:19]
+    acts = ACTIONS if ctx.thorough else ACTIONS[:21]
     depth = 4 if ctx.thorough else 3
     und = 3 if ctx.thorough else 2
     covs, accs = [], []
